@@ -20,6 +20,16 @@ CHECKS = {
          "Every policy x max_entries x max_memory_bytes x default-TTL configuration is sampled with histories of up to 60 ops over a key pool larger than capacity; disk histories include drop-and-recreate on the same directory; the five oracle clauses of DESIGN §3 C10 are judged after every op. Background cleanup is enumerated on tokio's paused clock (no wall-clock verdicts).",
          "Trusted: the model; TTLs are only ZERO or 1 h so elapsed real time never decides a verdict; tokio paused clock for the cleanup scenario.",
          "DESIGN.md §3 C10"),
+ "C01": ("pbt", "exploration",
+         "generated builder programs (config calls interleaved with data calls, all modes/ciphers/chunk sizes) judged by round trip through the library AND by an independent BLTE decoder that audits the chunk table",
+         "Programs over add_data / add_mixed_data / add_encrypted_data / add_chunk and the free constructors with payload lengths aimed at chunk_size-1/chunk_size/chunk_size+1/k*chunk_size, empty and 1-byte payloads, payloads starting with mode bytes, nested BLTE; every produced container must decode (library decoder with key store, and an independent decoder written from the format docs with reference Salsa20/RC4) to exactly the concatenation of the payloads, and every table entry (sizes, checksum) must be truthful.",
+         "Trusted: the independent decoder in harness/c01/src/decoder.rs, flate2/lz4_flex as codecs, the reference ciphers of C09. chunk_size 0 and Frame mode are outside the domain. Payloads <= 32 KiB (quick) / 1 MiB (thorough).",
+         "DESIGN.md §3 C01"),
+ "C04": ("pbt+enum", "exploration",
+         "model-based stateful testing: generated write/read/query/remove/flush/reopen/compact histories over DynamicContainer, Installation and ArchiveManager against a map model keyed by the independently computed encoding key; exhaustive grid of size orders and payload classes",
+         "Histories of up to 25 ops with size scripts (large->small, growing, equal, empty), payload classes that look like BLTE containers or local headers, all three compression modes, and drop+reopen on the same directory; after every step every live key must read back byte-for-byte and removed/never-written keys must be absent. The size-order grid (all ordered pairs/triples of 6 sizes x 3 systems, every payload class) is enumerated completely.",
+         "Trusted: the harness's own single-chunk BLTE encoder + reference MD5 for the key, the map model. Sizes <= 8 KiB mostly, 100 KiB steps, >64 MiB only in thorough. Working directories on /dev/shm when present.",
+         "DESIGN.md §3 C04"),
 }
 
 NOT_YET = "check not built yet in this session (work in progress; see DESIGN.md §3 for the planned generator and oracle)"
